@@ -16,12 +16,13 @@ KINDS = ("mem", "redis", "rabbit")
 
 class Rig:
     def __init__(self, kind: str, loop, *, latency=None, seed: int = 0, amqp_opts: dict | None = None,
-                 record: bool = True):
+                 record: bool = True, broker_attrs: dict | None = None):
         assert kind in KINDS, kind
         self.kind = kind
         self.loop = loop
         self.log = EventLog(loop)
         self.record = record
+        self.broker_attrs = broker_attrs or {}
         self.rnd = random.Random(seed)
         self.latency = latency  # None | float | ("rand", max)
         self.net = None
@@ -90,10 +91,12 @@ class Rig:
         else:
             ccls = type("Plain" + cbase.__name__, (cbase,), {})
         ccls.__init__ = consumer_init_hook(ccls)
+        ns = {"CONSUMER_CLASS": ccls}
+        ns.update(self.broker_attrs)
         if self.record:
-            bcls = recording_subclass(bbase, BROKER_METHODS, log, {"CONSUMER_CLASS": ccls})
+            bcls = recording_subclass(bbase, BROKER_METHODS, log, ns)
         else:
-            bcls = type("Plain" + bbase.__name__, (bbase,), {"CONSUMER_CLASS": ccls})
+            bcls = type("Plain" + bbase.__name__, (bbase,), ns)
         return bcls
 
     def new_label(self, prefix="p"):
